@@ -211,14 +211,25 @@ fn spawn_sync<T: TagT>(aidx: ActorIdx) -> (Option<Addr<Probe<T>>>, Option<Owning
         Entry::BuilderRegister => Entry::BuilderSpawn,
         e => e,
     };
+    let ord = spec.cfg_order % 6;
     macro_rules! base {
         () => {{
             let mut b = hannibal::build(Probe::<T>::new(aidx));
-            if let Some(t) = spec.timeout {
-                b = b.timeout(dur(t));
+            // configuration set on the base builder, in the order the scenario asks for
+            if ord == 1 || ord == 4 {
+                if spec.fail_on_timeout {
+                    b = b.fail_on_timeout(true);
+                }
             }
-            if spec.fail_on_timeout {
-                b = b.fail_on_timeout(true);
+            if ord == 0 || ord == 1 || ord == 5 {
+                if let Some(t) = spec.timeout {
+                    b = b.timeout(dur(t));
+                }
+            }
+            if ord == 0 {
+                if spec.fail_on_timeout {
+                    b = b.fail_on_timeout(true);
+                }
             }
             b
         }};
@@ -226,10 +237,27 @@ fn spawn_sync<T: TagT>(aidx: ActorIdx) -> (Option<Addr<Probe<T>>>, Option<Owning
     macro_rules! chan {
         () => {{
             let b = base!();
-            match spec.mailbox {
+            let mut c = match spec.mailbox {
                 None => b.unbounded(),
                 Some(n) => b.bounded(n),
+            };
+            // ... and on the builder stage that already has its channel
+            if ord == 3 || ord == 5 {
+                if spec.fail_on_timeout {
+                    c = c.fail_on_timeout(true);
+                }
             }
+            if ord == 2 || ord == 3 || ord == 4 {
+                if let Some(t) = spec.timeout {
+                    c = c.timeout(dur(t));
+                }
+            }
+            if ord == 2 {
+                if spec.fail_on_timeout {
+                    c = c.fail_on_timeout(true);
+                }
+            }
+            c
         }};
     }
     match entry {
